@@ -359,3 +359,50 @@ func TestClone(t *testing.T) {
 		t.Fatal("clone is independent")
 	}
 }
+
+// The deviation models must reproduce the recorded witnesses of the
+// implementation under test and be inert when switched off.
+func TestDeviationModels(t *testing.T) {
+	w := NewWorld()
+	w.Q = Quirks{ForInLiveOrder: true, ForInNoShadow: true}
+	o := w.ObjectLiteral([]LiteralProp{{"a", "value", Num(1)}, {"b", "value", Num(1)}, {"c", "value", Num(1)}})
+	if got := w.ForInDelete(o, o, "a"); !reflect.DeepEqual(got, []string{"a", "c", "c"}) {
+		t.Fatalf("live-order walk: %v", got)
+	}
+	w = NewWorld()
+	o = w.ObjectLiteral([]LiteralProp{{"a", "value", Num(1)}, {"b", "value", Num(1)}, {"c", "value", Num(1)}})
+	if got := w.ForInDelete(o, o, "a"); !reflect.DeepEqual(got, []string{"a", "b", "c"}) {
+		t.Fatalf("snapshot walk: %v", got)
+	}
+	w = NewWorld()
+	w.Q = Quirks{GenericRedefClearsWritable: true}
+	o = w.ObjectLiteral([]LiteralProp{{"a", "value", Num(1)}})
+	mustDefine(t, o, "a", &Desc{HasEnumerable: true, Enumerable: true})
+	if o.RawProp("a").Writable {
+		t.Fatal("generic redefinition deviation")
+	}
+	w = NewWorld()
+	w.Q = Quirks{WritableOnlyKeepsAccessor: true}
+	g := w.NewFunction("g", nil)
+	o = w.ObjectLiteral([]LiteralProp{{"a", "get", ObjV(g)}})
+	mustDefine(t, o, "a", &Desc{HasWritable: true, Writable: true})
+	func() {
+		defer func() {
+			if r := recover(); r == nil {
+				t.Fatal("crash deviation")
+			}
+		}()
+		w.GetOwnPropertyDescriptor(ObjV(o), "a")
+	}()
+	w = NewWorld()
+	w.Q = Quirks{AccessorBothUndefinedIsGeneric: true, NamesOfPrimitive: true}
+	o = w.NewObject()
+	mustDefine(t, o, "a", &Desc{HasGet: true, Get: Undef()})
+	d, _ := w.GetOwnPropertyDescriptor(ObjV(o), "a")
+	if !reflect.DeepEqual(d.O.OwnNames(), []string{"enumerable", "configurable"}) {
+		t.Fatal("generic rendering deviation")
+	}
+	if _, thr := w.GetOwnPropertyNames(Num(1)); thr != nil {
+		t.Fatal("names of primitive deviation")
+	}
+}
